@@ -45,6 +45,9 @@ func boundsProjects(c *core.Ctx, n, years int) []*gen.Project {
 		p.Arms = []string{fmt.Sprintf("gw=%s drought=%v heavyRain=%v peat=%v", p.Cfg.GWFrom, o.Drought, o.HeavyRain, o.Peat)}
 		ps = append(ps, p)
 	}
+	// groundwater histories on soils with explicit hydraulic parameters: the field capacity the bound is judged
+	// against is itself judged against the values of the soil file (a function of the level)
+	ps = append(ps, gwProjects(c, c.Pick(6, 18), years, 680)...)
 	return ps
 }
 
@@ -67,7 +70,7 @@ func checkC06(c *core.Ctx) {
 		kernelWater(c, worker, []string{"K06_Upper", "K06_Lower"})
 	}
 	if len(ps) > 0 {
-		checkRunTraces(c, worker, ps, "Trace_Run_C06.cfg", "", nil, func(tr *traceResult) string {
+		checkRunTraces(c, worker, ps, "Trace_Run_C06.cfg", "", gwHeader, func(tr *traceResult) string {
 			if tr.Violated == "Finite" {
 				return fmt.Sprintf("non finite value(s): %v", tr.Event["nonfinite"])
 			}
